@@ -785,6 +785,74 @@ def check_tuning(ctx, rep):
               "dual averaging: the statistic must be (target − acceptance) and x = mu − s̄·√t/γ, so acceptance above target raises the step size")
 
 
+# ---------------------------------------------------------------------------
+# C15.U — one uniform draw has one use
+# ---------------------------------------------------------------------------
+RAND_POSITIVE = """
+def propose(self):
+    u = torch.rand(1).item()
+    if u < self.p:
+        m = self.a + self.b * u
+    else:
+        m = math.pow(self.s, 2.0 * u - 1)
+    v = torch.rand(1)
+    w = torch.rand(1)
+    if v < self.p:
+        k = w * 2
+    return m, k
+"""
+
+
+def reused_draws(fn):
+    """names bound to a random draw that decide a branch *and* enter a value computed inside that branch"""
+    out = []
+    draws = {}
+    for st in ast.walk(fn):
+        if isinstance(st, ast.Assign) and len(st.targets) == 1 and isinstance(st.targets[0], ast.Name):
+            if any(isinstance(c, ast.Call) and (dotted_name(c.func) or '').split('.')[-1] in ('rand', 'uniform_', 'random', 'uniform') for c in ast.walk(st.value)) \
+                    and not any(isinstance(c, ast.Call) and (dotted_name(c.func) or '').split('.')[-1] in ('randint', 'randperm') for c in ast.walk(st.value)):
+                draws[st.targets[0].id] = st
+    for node in ast.walk(fn):
+        if isinstance(node, (ast.If, ast.IfExp)):
+            tested = {x.id for x in ast.walk(node.test) if isinstance(x, ast.Name) and x.id in draws}
+            if not tested:
+                continue
+            branches = (node.body + node.orelse) if isinstance(node, ast.If) else [node.body, node.orelse]
+            for b in branches:
+                for x in ast.walk(b):
+                    if isinstance(x, ast.Name) and isinstance(x.ctx, ast.Load) and x.id in tested:
+                        out.append((x.id, node, x))
+    return out
+
+
+def check_independent_draws(ctx, rep):
+    t = ast.parse(RAND_POSITIVE)
+    got = sorted({(name, x.lineno) for name, _, x in reused_draws(t.body[0])})
+    if got != [('u', 5), ('u', 7)]:
+        raise AnalysisError(f"C15.U self-check failed: {got}")
+    n = 0
+    for mname, m in sorted(ctx.prog.modules.items()):
+        if not (mname.startswith('torchtree.inference.mcmc') or mname.startswith('torchtree.inference.hmc')):
+            continue
+        for cname, cnode in m.classes.items():
+            for fn in [b for b in cnode.body if isinstance(b, ast.FunctionDef)]:
+                has_draw = any(isinstance(c, ast.Call) and (dotted_name(c.func) or '').split('.')[-1] == 'rand' for c in ast.walk(fn))
+                if not has_draw:
+                    continue
+                n += 1
+                hits = reused_draws(fn)
+                key = f"{cname}.{fn.name}::one-use-per-uniform-draw"
+                if hits:
+                    name, node, x = hits[0]
+                    rep.bad('C15.U', key, where(m, x), {'draw': name, 'uses': sorted({y.lineno for _, _, y in hits})},
+                            f"{cname}.{fn.name}: the uniform draw `{name}` chooses the branch (`{norm_text(node.test)[:50]}`) and is used again inside the chosen branch: conditionally on the "
+                            f"branch it is no longer uniform on (0, 1), so the proposal does not have the density the Hastings ratio (or its claimed symmetry) assumes")
+                else:
+                    rep.ok('C15.U', key, where(m, fn), None)
+    if n < 3:
+        rep.incomplete('C15.U', '*', '', f"only {n} methods drawing uniforms found in the samplers")
+
+
 def run(ctx, rep):
     from sa import callbind
     callbind.run_for(ctx, rep, 'C15', 6)
@@ -841,4 +909,8 @@ def run(ctx, rep):
     c11.check_cache_bypass(ctx, rep, rule='C15.R', only=lambda m: m.name in ('torchtree.core.logger', 'torchtree.inference.mcmc.mcmc', 'torchtree.inference.sampler'))
     rep.rule('C15.R', "logged densities are obtained by calling the model (never by reading the value cached by an earlier call)")
     rep.ok('C15.R', 'loggers::call-the-model', '', {'modules': 3})
-
+    from sa.report import RuleProxy
+    rep.rule('C15.U', "a uniform draw that chooses between proposal branches is not used again inside the chosen branch (each use of randomness is its own draw)")
+    check_independent_draws(ctx, rep)
+    # the density of the proposed state is the target at that state: a proposal / restore made through a view notifies the viewed parameter (its holders listen to it)
+    c11.check_inplace(ctx, RuleProxy(rep, 'C15.R', 'in-place::'), rule='C11.W', only=lambda m, fn: m.name == 'torchtree.core.parameter')
